@@ -1079,3 +1079,341 @@ Lemma F3_refuted :
   [115;116] <> [109;105;110;101] /\
   ci_get user_agent_lower (wire Fuzzing c_F3 o_none None None [115;116] [49] []) = Some [109;105;110;101].
 Proof. repeat split; try (vm_compute; reflexivity); discriminate. Qed.
+
+(* ====================================================================================== *)
+(* Part C: EngineContext.session                                                           *)
+(* ====================================================================================== *)
+
+Lemma nth_upd_other A (l : list A) i j x : j <> i -> nth_error (upd i x l) j = nth_error l j.
+Proof.
+  revert i j; induction l as [|y l IH]; intros [|i] [|j] H; cbn; try reflexivity; try congruence.
+  apply IH; congruence.
+Qed.
+
+Lemma nth_upd_inv A (l : list A) i j x p : nth_error (upd i x l) j = Some p -> j <> i -> nth_error l j = Some p.
+Proof. intros H Hne. rewrite nth_upd_other in H by exact Hne. exact H. Qed.
+
+Lemma nth_some_lt A (l : list A) i x : nth_error l i = Some x -> (i < length l)%nat.
+Proof. intros H. apply nth_error_Some. congruence. Qed.
+
+Lemma nth_app_old A (l : list A) y i x : nth_error l i = Some x -> nth_error (l ++ [y]) i = Some x.
+Proof. intros H. rewrite nth_error_app1 by (eapply nth_some_lt; eauto). exact H. Qed.
+
+Lemma nth_app_new A (l : list A) y : nth_error (l ++ [y]) (length l) = Some y.
+Proof. rewrite nth_error_app2 by lia. rewrite Nat.sub_diag. reflexivity. Qed.
+
+Lemma todo_cons c : exists r, todo c = FVerify :: r.
+Proof. unfold todo. eexists. reflexivity. Qed.
+
+Section SessionInit.
+Variables (c : ncfg) (dflt : dict) (ex : option sess).
+
+Definition fin : sess := match ex with Some x => x | None => configured c dflt end.
+
+Definition pub_ok (h : list sess) (ps : list spc) (o : nat) : Prop :=
+  nth_error h o = Some fin /\ forall t r, nth_error ps t <> Some (SConf o r).
+
+Definition spc_ok (h : list sess) (ps : list spc) (a : option nat) (t : nat) (p : spc) : Prop :=
+  match p with
+  | SIdle | SLook | SGet | SExpl => True
+  | SRetE => a <> None
+  | SNew => ex = None
+  | SConf o r => r <> [] /\ (exists x, nth_error h o = Some x /\ apply_fields c r x = fin) /\
+                 (forall t' r', t' <> t -> nth_error ps t' <> Some (SConf o r'))
+  | SPub o => pub_ok h ps o
+  | SPubA _ | SConfA _ | SRetA => False
+  end.
+
+Definition Core (h : list sess) (ps : list spc) (a : option nat) : Prop :=
+  (a = None -> ex = None) /\ (forall o, a = Some o -> pub_ok h ps o) /\
+  (forall t p, nth_error ps t = Some p -> spc_ok h ps a t p).
+
+Definition not_conf (p : spc) : Prop := forall o r, p <> SConf o r.
+
+(* thread t moves to a pc that is not a configuration step; the heap is untouched *)
+Lemma pub_move h ps t p' o : not_conf p' -> pub_ok h ps o -> pub_ok h (upd t p' ps) o.
+Proof.
+  intros Hn [Hh Hc]. split; [exact Hh|]. intros t' r H. apply nth_upd in H. destruct H as [[-> Heq] | [Hne H]].
+  - exact (Hn _ _ (eq_sym Heq)).
+  - exact (Hc _ _ H).
+Qed.
+
+Lemma core_move h ps a t p' :
+  Core h ps a -> not_conf p' -> spc_ok h ps a t p' -> Core h (upd t p' ps) a.
+Proof.
+  intros (Ha & Hp & Hpc) Hn Hnew. split; [exact Ha|]. split.
+  - intros o Ho. apply pub_move; auto.
+  - intros j q Hq. apply nth_upd in Hq. destruct Hq as [[-> ->] | [Hne Hq]].
+    + destruct p'; cbn in *; auto.
+      * exfalso. exact (Hn _ _ eq_refl).
+      * apply pub_move; auto.
+    + specialize (Hpc _ _ Hq). destruct q; cbn in *; auto.
+      * destruct Hpc as (Hr & Hx & Hu). split; [exact Hr|]. split; [exact Hx|]. intros t' r' Hne' H. apply nth_upd in H. destruct H as [[-> Heq] | [Hne2 H]].
+        -- exact (Hn _ _ (eq_sym Heq)).
+        -- exact (Hu _ _ Hne' H).
+      * apply pub_move; auto.
+Qed.
+
+
+Lemma pub_alloc h ps t r0 o :
+  pub_ok h ps o -> pub_ok (h ++ [bare dflt]) (upd t (SConf (length h) r0) ps) o.
+Proof.
+  intros [Hh Hc]. split; [apply nth_app_old; exact Hh|]. intros t' r H. apply nth_upd in H. destruct H as [[-> Heq] | [Hne H]].
+  - injection Heq as -> _. apply nth_some_lt in Hh. lia.
+  - exact (Hc _ _ H).
+Qed.
+
+Lemma core_alloc h ps a t r0 :
+  Core h ps a -> r0 <> [] -> apply_fields c r0 (bare dflt) = fin ->
+  Core (h ++ [bare dflt]) (upd t (SConf (length h) r0) ps) a.
+Proof.
+  intros (Ha & Hp & Hpc) Hr0 Hfin. split; [exact Ha|]. split.
+  - intros o Ho. apply pub_alloc; auto.
+  - intros j q Hq. apply nth_upd in Hq. destruct Hq as [[-> ->] | [Hne Hq]].
+    + cbn. split; [exact Hr0|]. split.
+      * exists (bare dflt). split; [apply nth_app_new | exact Hfin].
+      * intros t' r' Hne H. apply nth_upd_inv in H; [|exact Hne]. specialize (Hpc _ _ H). cbn in Hpc.
+        destruct Hpc as (_ & (x & Hx & _) & _). apply nth_some_lt in Hx. lia.
+    + specialize (Hpc _ _ Hq). destruct q; cbn in *; auto.
+      * destruct Hpc as (Hr & (x & Hx & Hf) & Hu). split; [exact Hr|]. split.
+        -- exists x. split; [apply nth_app_old; exact Hx | exact Hf].
+        -- intros t' r' Hne' H. apply nth_upd in H. destruct H as [[-> Heq] | [Hne2 H]].
+           ++ injection Heq as -> _. apply nth_some_lt in Hx. lia.
+           ++ exact (Hu _ _ Hne' H).
+      * apply pub_alloc; auto.
+Qed.
+
+Lemma after_conf_not o o' r r' : after_conf o r = SConf o' r' -> o' = o /\ r' = r /\ r <> [].
+Proof. destruct r; cbn; intros H; [discriminate|]. injection H as <- <-. repeat split. discriminate. Qed.
+
+Lemma pub_conf h ps t o f r y o' :
+  nth_error ps t = Some (SConf o (f :: r)) ->
+  pub_ok h ps o' -> pub_ok (upd o y h) (upd t (after_conf o r) ps) o'.
+Proof.
+  intros Ht [Hh Hc].
+  assert (Hne : o' <> o) by (intros ->; exact (Hc _ _ Ht)).
+  split; [rewrite nth_upd_other by exact Hne; exact Hh|].
+  intros t' r' H. apply nth_upd in H. destruct H as [[-> Heq] | [Hne' H]].
+  - symmetry in Heq. apply after_conf_not in Heq. destruct Heq as (He & _). congruence.
+  - exact (Hc _ _ H).
+Qed.
+
+Lemma core_conf h ps a t o f r x :
+  Core h ps a -> nth_error ps t = Some (SConf o (f :: r)) -> nth_error h o = Some x ->
+  Core (upd o (set_field c f x) h) (upd t (after_conf o r) ps) a.
+Proof.
+  intros (Ha & Hp & Hpc) Ht Hx. split; [exact Ha|]. split.
+  - intros o' Ho. eapply pub_conf; eauto.
+  - pose proof (Hpc _ _ Ht) as Hme. cbn in Hme. destruct Hme as (_ & (x0 & Hx0 & Hf0) & Hu0).
+    rewrite Hx in Hx0. injection Hx0 as <-.
+    intros j q Hq. apply nth_upd in Hq. destruct Hq as [[-> ->] | [Hne Hq]].
+    + destruct r as [|f2 r2]; cbn [after_conf spc_ok].
+      * split.
+        -- erewrite nth_upd_same by exact Hx. cbn in Hf0. rewrite Hf0. reflexivity.
+        -- intros t' r' H. apply nth_upd in H. destruct H as [[-> Heq] | [Hne' H]]; [discriminate|].
+           exact (Hu0 _ _ Hne' H).
+      * split; [discriminate|]. split.
+        -- exists (set_field c f x). split; [eapply nth_upd_same; exact Hx | exact Hf0].
+        -- intros t' r' Hne' H. apply nth_upd_inv in H; [|exact Hne']. exact (Hu0 _ _ Hne' H).
+    + specialize (Hpc _ _ Hq). destruct q; cbn [spc_ok] in *; auto.
+      * destruct Hpc as (Hr & (y & Hy & Hf) & Hu).
+        assert (Hoo : o0 <> o) by (intros ->; exact (Hu t _ (not_eq_sym Hne) Ht)).
+        split; [exact Hr|]. split.
+        -- exists y. split; [rewrite nth_upd_other by exact Hoo; exact Hy | exact Hf].
+        -- intros t' r' Hne' H. apply nth_upd in H. destruct H as [[-> Heq] | [Hne2 H]].
+           ++ symmetry in Heq. apply after_conf_not in Heq. destruct Heq as (He & _). congruence.
+           ++ exact (Hu _ _ Hne' H).
+      * eapply pub_conf; eauto.
+Qed.
+
+Record SInv (s : sst) : Prop := {
+  SI_core : Core (heap s) (spcs s) (sattr s);
+  SI_cached : forall o, cached s = Some o -> pub_ok (heap s) (spcs s) o;
+  SI_gots : forall t o x, In (t, o, x) (gots s) -> x = fin /\ pub_ok (heap s) (spcs s) o;
+  SI_sends : forall t o x, In (t, o, x) (sends s) -> x = fin
+}.
+
+Lemma sinv_mono s h' ps' :
+  SInv s -> Core h' ps' (sattr s) -> (forall o, pub_ok (heap s) (spcs s) o -> pub_ok h' ps' o) ->
+  SInv {| heap := h'; cached := cached s; sattr := sattr s; spcs := ps'; gots := gots s; sends := sends s |}.
+Proof.
+  intros [Hc Hca Hg Hs] Hc' Hm. split; cbn.
+  - exact Hc'.
+  - intros o Ho. apply Hm. exact (Hca _ Ho).
+  - intros t o x Hi. destruct (Hg _ _ _ Hi) as [-> Hp]. split; [reflexivity | apply Hm; exact Hp].
+  - exact Hs.
+Qed.
+
+Lemma sinv_move s t p' :
+  SInv s -> not_conf p' -> spc_ok (heap s) (spcs s) (sattr s) t p' -> SInv (set_spc s t p').
+Proof.
+  intros HI Hn Hok. unfold set_spc. apply sinv_mono; [exact HI | | ].
+  - apply core_move; [exact (SI_core _ HI) | exact Hn | exact Hok].
+  - intros o Ho. apply pub_move; auto.
+Qed.
+
+Lemma sinv_give s t o : SInv s -> pub_ok (heap s) (spcs s) o -> SInv (give s t o).
+Proof.
+  intros HI Hp. unfold give. destruct Hp as [Hh Hc]. rewrite Hh.
+  assert (Hn : not_conf SIdle) by (intros ? ? ?; discriminate).
+  destruct HI as [Hco Hca Hg Hs]. split; cbn.
+  - apply core_move; [exact Hco | exact Hn | exact I].
+  - intros o' Ho'. apply pub_move; auto.
+  - intros t' o' x [Heq | Hi].
+    + injection Heq as <- <- <-. split; [reflexivity|]. apply pub_move; [exact Hn|]. split; assumption.
+    + destruct (Hg _ _ _ Hi) as [-> Hp]. split; [reflexivity | apply pub_move; auto].
+  - exact Hs.
+Qed.
+
+Lemma sinv_cached s o : SInv s -> pub_ok (heap s) (spcs s) o -> SInv (with_cached s (Some o)).
+Proof.
+  intros [Hco Hca Hg Hs] Hp. split; cbn; auto. intros o' Heq. injection Heq as <-. exact Hp.
+Qed.
+
+Lemma s_step_inv s l : SInv s -> SInv (s_step true c dflt s l).
+Proof.
+  intros HI. pose proof (SI_core _ HI) as (Ha & Hp & Hpc).
+  destruct l as [t | t | t]; cbn [s_step].
+  - destruct (nth_error (spcs s) t) as [[]|] eqn:Ht; try exact HI.
+    apply sinv_move; [exact HI | intros ? ? ?; discriminate | exact I].
+  - destruct (nth_error (spcs s) t) as [p|] eqn:Ht; [|exact HI].
+    pose proof (Hpc _ _ Ht) as Hok.
+    destruct p; cbn [s_thread_step].
+    + exact HI.
+    + destruct (cached s) as [o|] eqn:Hc.
+      * apply sinv_give; [exact HI | exact (SI_cached _ HI _ Hc)].
+      * apply sinv_move; [exact HI | intros ? ? ?; discriminate | exact I].
+    + destruct (cached s) as [o|] eqn:Hc.
+      * apply sinv_give; [exact HI | exact (SI_cached _ HI _ Hc)].
+      * apply sinv_move; [exact HI | intros ? ? ?; discriminate | exact I].
+    + destruct (sattr s) as [o|] eqn:Hat.
+      * apply sinv_move; [exact HI | intros ? ? ?; discriminate | rewrite Hat; cbn; discriminate].
+      * apply sinv_move; [exact HI | intros ? ? ?; discriminate | cbn; exact (Ha eq_refl)].
+    + destruct (sattr s) as [o|] eqn:Hat.
+      * apply sinv_move; [exact HI | intros ? ? ?; discriminate | cbn; exact (Hp _ eq_refl)].
+      * apply sinv_move; [exact HI | intros ? ? ?; discriminate | exact I].
+    + cbn in Hok. destruct (todo_cons c) as [r0 Hr0]. rewrite Hr0. cbn [after_conf]. rewrite <- Hr0.
+      unfold set_spc, with_heap; cbn. apply sinv_mono; [exact HI | |].
+      * apply core_alloc; [exact (SI_core _ HI) | rewrite Hr0; discriminate | unfold fin; rewrite Hok; reflexivity].
+      * intros o' Ho'. apply pub_alloc; exact Ho'.
+    + cbn in Hok. destruct Hok as (Hr & (x & Hx & Hf) & Hu). destruct r as [|f r']; [congruence|].
+      unfold hmod. rewrite Hx. unfold set_spc, with_heap; cbn. apply sinv_mono; [exact HI | |].
+      * eapply core_conf; [exact (SI_core _ HI) | exact Ht | exact Hx].
+      * intros o' Ho'. eapply pub_conf; [exact Ht | exact Ho'].
+    + cbn in Hok. apply sinv_give; [apply sinv_cached; assumption | exact Hok].
+    + destruct Hok.
+    + destruct Hok.
+    + destruct Hok.
+  - destruct (last_got t (gots s)) as [o|] eqn:Hl; [|exact HI].
+    unfold last_got in Hl. destruct (find _ (gots s)) as [e|] eqn:Hf; [|discriminate]. injection Hl as <-.
+    apply find_some in Hf. destruct Hf as [Hin _]. destruct e as [[t' o] x]. cbn.
+    destruct (SI_gots _ HI _ _ _ Hin) as [-> [Hh Hc]]. rewrite Hh.
+    destruct HI as [Hco Hca Hg Hs]. split; cbn; auto.
+    intros t2 o2 x2 [Heq | Hi]; [injection Heq as <- <- <-; reflexivity | exact (Hs _ _ _ Hi)].
+Qed.
+
+Lemma s_run_inv sched : forall s, SInv s -> SInv (s_run true c dflt sched s).
+Proof. induction sched as [|l r IH]; intros s HI; [exact HI|]. cbn. apply IH. apply s_step_inv. exact HI. Qed.
+
+Lemma s_init_inv n : SInv (s_init n ex).
+Proof.
+  assert (Hidle : forall t p, nth_error (repeat SIdle n) t = Some p -> p = SIdle).
+  { intros t p H. apply nth_error_In in H. apply repeat_spec in H. exact H. }
+  split; cbn.
+  - split; [|split].
+    + destruct ex; [discriminate | reflexivity].
+    + intros o Ho. unfold pub_ok, fin. destruct ex as [x|]; [|discriminate]. injection Ho as <-. split; [reflexivity|].
+      intros t r H. apply Hidle in H. discriminate.
+    + intros t p H. apply Hidle in H. subst p. exact I.
+  - discriminate.
+  - intros ? ? ? [].
+  - intros ? ? ? [].
+Qed.
+
+End SessionInit.
+
+Lemma configured_spec c dflt :
+  configured c dflt =
+  {| s_verify := n_verify c; s_auth := n_auth c; s_headers := session_headers dflt (n_headers c); s_cert := n_cert c;
+     s_proxies := match n_proxy c with Some p => [(K_ALL, p)] | None => [] end |}.
+Proof.
+  destruct c as [v a hs ce px]. unfold configured, todo, bare, session_headers. cbn [n_verify n_auth n_headers n_cert n_proxy].
+  destruct a, hs, ce, px; reflexivity.
+Qed.
+
+Definition s_log (s : sst) (e : nat * nat * sess) : Prop := In e (gots s) \/ In e (sends s).
+
+Lemma session_configured c dflt n sched t o x :
+  s_log (s_run true c dflt sched (s_init n None)) (t, o, x) -> x = configured c dflt.
+Proof.
+  pose proof (s_run_inv c dflt None sched _ (s_init_inv c dflt None n)) as HI.
+  intros [H | H].
+  - exact (proj1 (SI_gots _ _ _ _ HI _ _ _ H)).
+  - exact (SI_sends _ _ _ _ HI _ _ _ H).
+Qed.
+
+Lemma session_configured_fields c dflt n sched t o x :
+  s_log (s_run true c dflt sched (s_init n None)) (t, o, x) ->
+  s_verify x = n_verify c /\ s_auth x = n_auth c /\ s_headers x = session_headers dflt (n_headers c) /\
+  s_cert x = n_cert c /\ s_proxies x = match n_proxy c with Some p => [(K_ALL, p)] | None => [] end.
+Proof. intros H. apply session_configured in H. rewrite configured_spec in H. subst x. cbn. repeat split. Qed.
+
+Lemma session_requests_carry_auth c dflt n sched t o x a final :
+  s_log (s_run true c dflt sched (s_init n None)) (t, o, x) -> n_auth c = Some a ->
+  request_headers x final = wire_headers dflt (n_headers c) final (Some a) /\
+  ci_get AUTHORIZATION (request_headers x final) = Some a.
+Proof.
+  intros H Ha. apply session_configured in H. rewrite configured_spec in H. subst x.
+  unfold request_headers, wire_headers. cbn [s_auth s_headers]. rewrite Ha. split; [reflexivity|].
+  cbn [apply_auth]. rewrite ci_get_ci_set. rewrite leq_refl. reflexivity.
+Qed.
+
+Lemma session_published_complete c dflt n sched o :
+  cached (s_run true c dflt sched (s_init n None)) = Some o ->
+  nth_error (heap (s_run true c dflt sched (s_init n None))) o = Some (configured c dflt).
+Proof.
+  pose proof (s_run_inv c dflt None sched _ (s_init_inv c dflt None n)) as HI.
+  intros H. exact (proj1 (SI_cached _ _ _ _ HI _ H)).
+Qed.
+
+Lemma session_explicit_unchanged c dflt n x0 sched t o x :
+  s_log (s_run true c dflt sched (s_init n (Some x0))) (t, o, x) -> x = x0.
+Proof.
+  pose proof (s_run_inv c dflt (Some x0) sched _ (s_init_inv c dflt (Some x0) n)) as HI.
+  intros [H | H].
+  - exact (proj1 (SI_gots _ _ _ _ HI _ _ _ H)).
+  - exact (SI_sends _ _ _ _ HI _ _ _ H).
+Qed.
+
+(* witnesses *)
+Definition c_sess : ncfg :=
+  {| n_verify := V_TRUE; n_auth := Some [66;97;115;105;99;32;100;88;65;61]; n_headers := [([88;45;67], [49])];
+     n_cert := None; n_proxy := None |}.
+Definition d_sess : dict := [(USER_AGENT_NAME, [114]); ([65;99;99;101;112;116], [42;47;42])].
+
+(* reader 0 creates and publishes the object, reader 1 asks for the session before reader 0 has set auth on it *)
+Definition sched_publish_first : list slabel :=
+  [SCall 0; SCall 1; STh 0; STh 0; STh 0; STh 1; STh 1; SUse 1; STh 0; STh 0; STh 0; STh 0].
+
+Lemma publish_first_refuted :
+  In (1%nat, 0%nat, bare d_sess) (sends (s_run false c_sess d_sess sched_publish_first (s_init 2 None))) /\
+  n_auth c_sess = Some [66;97;115;105;99;32;100;88;65;61] /\ s_auth (bare d_sess) = None /\
+  ci_get AUTHORIZATION (request_headers (bare d_sess) HNone) = None.
+Proof. vm_compute. repeat split; auto. Qed.
+
+(* both readers miss the cache, both build a session, the later publication wins; every reader
+   got a complete one; a later read returns the published object *)
+Definition sched_two_builders : list slabel :=
+  [SCall 0; SCall 1; STh 0; STh 0; STh 0; STh 0; STh 1; STh 1; STh 1; STh 1; STh 0; STh 0; STh 0; STh 0; SUse 0;
+   STh 1; STh 1; STh 1; STh 1; SCall 0; STh 0; SUse 0; SUse 1].
+
+Lemma two_builders_run :
+  map (fun e => (fst (fst e), snd (fst e))) (rev (gots (s_run true c_sess d_sess sched_two_builders (s_init 2 None))))
+    = [(0, 0); (1, 1); (0, 1)]%nat /\
+  map (fun e => (fst (fst e), snd (fst e))) (rev (sends (s_run true c_sess d_sess sched_two_builders (s_init 2 None))))
+    = [(0, 0); (0, 1); (1, 1)]%nat /\
+  cached (s_run true c_sess d_sess sched_two_builders (s_init 2 None)) = Some 1%nat /\
+  forallb (auth_ok c_sess) (sends (s_run true c_sess d_sess sched_two_builders (s_init 2 None))) = true /\
+  forallb (auth_ok c_sess) (sends (s_run true c_sess d_sess sched_publish_first (s_init 2 None))) = true /\
+  forallb (auth_ok c_sess) (sends (s_run false c_sess d_sess sched_publish_first (s_init 2 None))) = false.
+Proof. vm_compute. repeat split. Qed.
